@@ -10,7 +10,12 @@ from . import robust as R
 DEEP = "/c/a/n/a/r/y/set"          # the set directory, seven levels below the scratch root
 TRAVERSAL = ["../x", "../../x", "a/../../x", "a/../../../x", "/abs", "/c/a/x", ".", "..", "", "a/./..", "a/..", "..a", "...", "a/../b",
              "sub/../../escaped.txt", "good.dat/../../x", "./x", ".hidden", "x/", "x//y", "a/b/../../../z", "..\\x", "sub\\..\\..\\x",
-             "a/../..", "././../y", "x/../x/../../w", "\0", "a\0/../../b"]
+             "a/../..", "././../y", "x/../x/../../w", "\0", "a\0/../../b",
+             # NEAR MISSES: harmless as they stand (the odd component is just a strange directory name) - they leave the
+             # directory only if something normalises the name AFTER it was validated (trimming, dropping control or
+             # invisible characters, unescaping, case or width folding)
+             " ../x", "\t../x", "\n../../x", "../x ", "sub/ ../../x ", " /abs", ".\x01./x", "a/.\x01./.\x01./x", ".\x7f./.\x7f./x",
+             ".\x1b./x", "..\r/x", "%2e%2e/x", "..%2fx", "%2e%2e%2f%2e%2e%2fx", "..;/x", ".. ./x", "&#46;&#46;/x", "..\\/x", "~/x", "$HOME/x", "a/ .. / .. /x"]
 
 
 def run(ctx):
@@ -156,7 +161,7 @@ def run(ctx):
             report("Create containment differs from the model (%s): impl=%s model=%s" % (what, i[:80], m[:80]), {"lines": [line], "impl": i[:600], "model": m[:600], "class": {"part": "create"}}, nf=True)
     return ctx.finish(
         "proof",
-        rule="(1) the path model vs Go's path.Clean/IsAbs/Ext, filepath.Dir/Base/Join and gopar's checkFilename on EVERY string over {a . /} up to length 7 (thorough 8) plus unicode, NUL, backslash, long runs; (2) fully repairable PAR2 archives by the independent writer whose declared names come from a traversal corpus (28 spellings: ../x, a/../../x, /abs, ., .., empty, ..a, trailing slash, backslashes, NUL ...) at every position of the set, declared files missing, on a real directory seven levels deep with canary files at every level; (3) the same for PAR1 entries; (4) Create with inputs outside the index directory; non-trivial = the declared name is not its own clean inside name",
+        rule="(1) the path model vs Go's path.Clean/IsAbs/Ext, filepath.Dir/Base/Join and gopar's checkFilename on EVERY string over {a . /} up to length 7 (thorough 8) plus unicode, NUL, backslash, long runs; (2) fully repairable PAR2 archives by the independent writer whose declared names come from a traversal corpus (49 spellings: ../x, a/../../x, /abs, ., .., empty, ..a, trailing slash, backslashes, NUL ..., and NEAR MISSES that leave the directory only if the name is normalised after validation: surrounding white space, control / escaped characters inside the dot-dot) at every position of the set, declared files missing, on a real directory seven levels deep with canary files at every level; (3) the same for PAR1 entries; (4) Create with inputs outside the index directory; non-trivial = the declared name is not its own clean inside name",
         exhaustive=True,
         extra={"input_distribution": dist,
                "predicate": "after Verify and Repair nothing outside the archive's directory tree (PAR1: directory) was created, modified or deleted (whole scratch tree snapshotted); archive and canary files untouched",
